@@ -175,6 +175,13 @@ func (u *Universe) loadContracts() error {
 		if err != nil {
 			return err
 		}
+		// hook integrity: guarded by the build tag and comment-only (no declarations)
+		if !strings.HasPrefix(string(data), "//go:build verif\n") {
+			u.problem("contract file %s is not guarded by '//go:build verif' on its first line", u.relFile(f))
+		}
+		if pf, perr := parser.ParseFile(token.NewFileSet(), f, data, 0); perr != nil || len(pf.Decls) != 0 {
+			u.problem("contract file %s must be comment-only (it has declarations or does not parse)", u.relFile(f))
+		}
 		if err := u.parseContractFile(alias, u.relFile(f), string(data)); err != nil {
 			return err
 		}
